@@ -32,7 +32,7 @@ func c08Cfg() *sim.GenesisCfg {
 }
 
 // mempool content classes
-var c08Pools = []string{"empty", "1-valid", "15-valid", "20-valid", "valid+stale+foreign", "foreign-only", "stale-first"}
+var c08Pools = []string{"empty", "1-valid", "15-valid", "20-valid", "valid+stale+foreign", "foreign-only", "timeout-running-out", "stale-first"}
 
 // fillMempool inserts the class's transactions and returns them in insertion order.
 func c08FillMempool(w *enga.World, class string) [][]byte {
@@ -55,7 +55,13 @@ func c08FillMempool(w *enga.World, class string) [][]byte {
 	num, seq, _ := w.N.Account(w.N.Ctx(), proposer.Addr())
 	onum, oseq, _ := w.N.Account(w.N.Ctx(), other.Addr())
 	sign := func(k sim.Key, n, s uint64) []byte {
-		tx, err := sim.SignTx(w.N.TxCfg, w.N.Cfg.ChainID, k, n, s, 0, "", msgOf())
+		m := msgOf()
+		if k.AddrStr() != proposer.AddrStr() {
+			// a correctly signed transaction of a member that is not the proposer: nothing but the
+			// relayer-proposer rule stands between it and the block
+			m = &bitcointypes.MsgApproveCancellation{Proposer: k.AddrStr(), Id: []uint64{999}}
+		}
+		tx, err := sim.SignTx(w.N.TxCfg, w.N.Cfg.ChainID, k, n, s, 0, "", m)
 		must(err)
 		return tx
 	}
@@ -81,6 +87,11 @@ func c08FillMempool(w *enga.World, class string) [][]byte {
 		txs = append(txs, sign(other.Key, onum, oseq)) // a voter that is not the proposer
 	case "foreign-only":
 		txs = append(txs, sign(other.Key, onum, oseq), sign(other.Key, onum, oseq+1))
+	case "timeout-running-out":
+		// admitted while its timeout height was still ahead; expired for the block being built
+		tx, err := sim.SignTx(w.N.TxCfg, w.N.Cfg.ChainID, proposer.Key, num, seq, uint64(w.N.Height), "", msgOf())
+		must(err)
+		txs = append(txs, tx)
 	case "stale-first":
 		txs = append(txs, sign(proposer.Key, num, seq+5)) // nonce gap: not executable
 		valid(1, seq)
@@ -172,6 +183,34 @@ func c08Mutations() []propMut {
 			t2, _, err := w.N.BuildEthBlockTx(sim.EthBlockOpts{SeqOffset: 1})
 			must(err)
 			return [][]byte{t1, t2}, true
+		}},
+		{"two-block-messages-in-a-later-transaction", func(w *enga.World) ([][]byte, bool) {
+			// a well-formed first transaction, then a second one of the same author that carries two
+			// more execution-block messages (next account sequence, timeout = this height)
+			t1, payload, err := w.N.BuildEthBlockTx(sim.EthBlockOpts{})
+			must(err)
+			key := w.N.Cfg.Vals[w.N.Cfg.NodeVal].Key
+			m1 := &goatmodtypes.MsgNewEthBlock{Proposer: key.AddrStr(), Payload: payload}
+			m2 := &goatmodtypes.MsgNewEthBlock{Proposer: key.AddrStr(), Payload: payload}
+			num, seq, _ := w.N.Account(w.N.Ctx(), key.Addr())
+			t2, err := sim.SignTx(w.N.TxCfg, w.N.Cfg.ChainID, key, num, seq+1, uint64(w.N.Height+1), "", m1, m2)
+			must(err)
+			return [][]byte{t1, t2}, true
+		}},
+		{"block-message-after-a-relayer-message-in-a-later-transaction", func(w *enga.World) ([][]byte, bool) {
+			t1, payload, err := w.N.BuildEthBlockTx(sim.EthBlockOpts{})
+			must(err)
+			rel, _ := w.Relayer()
+			for _, m := range w.Members {
+				if m.AddrStr() == rel.Proposer {
+					num, seq, _ := w.N.Account(w.N.Ctx(), m.Key.Addr())
+					t2, err := sim.SignTx(w.N.TxCfg, w.N.Cfg.ChainID, m.Key, num, seq, uint64(w.N.Height+1), "",
+						&bitcointypes.MsgApproveCancellation{Proposer: rel.Proposer, Id: []uint64{999}}, &goatmodtypes.MsgNewEthBlock{Proposer: rel.Proposer, Payload: payload})
+					must(err)
+					return [][]byte{t1, t2}, true
+				}
+			}
+			panic("no proposer")
 		}},
 		{"block-message-second", func(w *enga.World) ([][]byte, bool) {
 			t1, _, err := w.N.BuildEthBlockTx(sim.EthBlockOpts{})
@@ -351,7 +390,7 @@ func runC08(r *mc.Run) {
 		r.SetBudget(170 * 1e9)
 	}
 	r.Bounds["depth_blocks"] = depth
-	r.Rule = "at every state of a tree search over block histories (2 validators, relayer proposer + 1 voter; menu with queue-filling events, unlock maturity, elections): (honest) for 7 mempool classes the real PrepareProposal output must be ACCEPTed by a second replica, carry <= 16 txs and its execution-block message must succeed in FinalizeBlock; (converse) 33 single mutations of a well-formed proposal must be rejected by ProcessProposal and must not move the head when finalised anyway; (schedules, races) see schedule_* keys"
+	r.Rule = "at every state of a tree search over block histories (2 validators, relayer proposer + 1 voter; menu with queue-filling events, unlock maturity, elections): (honest) for 8 mempool classes the real PrepareProposal output must be ACCEPTed by a second replica, carry <= 16 txs and its execution-block message must succeed in FinalizeBlock; (converse) 35 single mutations of a well-formed proposal must be rejected by ProcessProposal and must not move the head when finalised anyway; (schedules, races) see schedule_* keys"
 	r.Assumptions = []string{"validators' clocks are not behind the proposer's", "ELSim canonical mode defines the well-behaved execution layer"}
 	var explore func(r *mc.Run, only []enga.ABlock)
 	explore = func(r *mc.Run, only []enga.ABlock) {
